@@ -18,7 +18,7 @@ except Exception:  # pragma: no cover
 
 META = {
     "technique": "Lean 4 decision-logic proof over the model of the package's guards in firing order (accepts <-> documented precondition) + accept/reject correspondence on malformed variants of valid inputs + finiteness probes over stretched/compressed/charged inputs",
-    "level_text": "Theorems: the modelled guard sequence accepts exactly the inputs satisfying the documented preconditions (sorted species, electron-count parity for RHF, integral alpha/beta occupations within 0..norb, supported UHF/solver/excited-state combinations, homogeneous batches where required, excited active state needs settings, known COM-removal mode), and rejects before any result is produced. Tied to the code by comparing the accept/reject class of Molecule(...)/Electronic_Structure.forward/MD.initialize with the model on malformed variants along each precondition, and by checking that every accepted input yields finite energies/forces/charges or an explicit non-convergence flag over distances 0.5-30 A, highly charged ions and edge-of-table elements.",
+    "level_text": "Theorems: the modelled guard sequence accepts exactly the inputs satisfying the documented preconditions (sorted species, electron-count parity for RHF, integral alpha/beta occupations within 0..norb, supported UHF/solver/excited-state combinations, homogeneous batches where required, excited active state needs settings, known COM-removal mode), and rejects before any result is produced. Tied to the code by comparing the accept/reject class of Molecule(...)/Electronic_Structure.forward/MD.initialize with the model on malformed variants along each precondition, and by checking that every accepted input yields finite energies/forces/charges or an explicit non-convergence flag over distances 0.5-30 A, highly charged ions and edge-of-table elements. The regenerated guard census includes the condition under which each documented guard fires (Census.documented_guard_conditions); malformed variants are generated along each precondition and classified by the proved guard model.",
     "level_note": "Trusted: Lean kernel; harness. Finiteness over ALL accepted inputs is validated on the sampled lattice, not proved.",
     "design_ref": "DESIGN.md section 5 C18",
 }
